@@ -233,6 +233,34 @@ theorem write_spec (buf : Bytes) (ign : Bool) (s : St) (hsc : s.slowDelay.isSome
       right
       simpa using h
 
+/-! ### the read-back of `send` -/
+
+theorem total_append (a b : List ReadRec) : total (a ++ b) = total a + total b := by
+  simp [total, dataOf, List.filterMap_append]
+
+/-- `Spec.readBack` is the expression the model (`sendLoop`) passes to `read` after a slice -/
+theorem readBack_model (c : Bytes) : c.length + countNl c = readBack c := rfl
+
+/-- … and it is `len(b) + b.count(b"\r") + b.count(b"\n")` -/
+theorem readBack_eq (b : Bytes) : readBack b = b.length + b.count 13 + b.count 10 := by
+  unfold readBack countNl; omega
+
+@[simp] theorem readBack_nil : readBack [] = 0 := rfl
+
+theorem readBack_append (a b : Bytes) : readBack (a ++ b) = readBack a + readBack b := by
+  unfold readBack countNl
+  simp only [List.length_append, List.count_append]
+  omega
+
+theorem readBack_pos {b : Bytes} (h : b ≠ []) : 0 < readBack b := by
+  have := List.length_pos_iff.mpr h
+  unfold readBack; omega
+
+theorem accepted_append (a b : List (Bytes × Nat)) : accepted (a ++ b) = accepted a ++ accepted b := by
+  simp [accepted]
+
+@[simp] theorem accepted_nil : accepted [] = [] := rfl
+
 /-- The slice loop of `Channel.send`. -/
 theorem sendLoop_spec : ∀ (f : Nat) (buf : Bytes) (rb : Bool) (timeout : Option Nat) (ign : Bool) (t0 : Nat) (s : St),
     buf.length < f → 0 < s.slice → WF s → 0 < s.chunk → (s.slowDelay.isSome → 0 < s.slowChunk) →
@@ -243,7 +271,13 @@ theorem sendLoop_spec : ∀ (f : Nat) (buf : Bytes) (rb : Bool) (timeout : Optio
       ∧ (ign = false → forbidden s.blacklist (accepted ws) = false)
       ∧ (∀ e, (sendLoop f buf rb timeout ign t0 s).1 = .error e →
           (e = .illegal ∧ ign = false ∧ forbidden s.blacklist buf = true)
-          ∨ e = .timeout ∨ e = .hang ∨ ∃ x m, e = .death x m) := by
+          ∨ e = .timeout ∨ e = .hang ∨ ∃ x m, e = .death x m)
+      -- the bytes delivered to the read-backs of the slices written so far
+      ∧ (rb = false → recs = [])
+      ∧ total recs ≤ readBack (accepted ws)
+      ∧ ((sendLoop f buf rb timeout ign t0 s).1 = .ok () → rb = true → total recs = readBack (accepted ws))
+      ∧ (∀ e, (sendLoop f buf rb timeout ign t0 s).1 = .error e → e = .timeout ∨ e = .hang →
+          rb = true ∧ total recs < readBack (accepted ws)) := by
   intro f
   induction f with
   | zero => intro buf _ _ _ _ s hf; omega
@@ -251,8 +285,10 @@ theorem sendLoop_spec : ∀ (f : Nat) (buf : Bytes) (rb : Bool) (timeout : Optio
     intro buf rb timeout ign t0 s hf hsl hwf hc hsc
     cases buf with
     | nil =>
-      refine ⟨[], [], by simpa [sendLoop] using IOFrame.refl s, ⟨[], rfl, fun _ => rfl⟩, by simp, by simp, ?_, ?_⟩
+      refine ⟨[], [], by simpa [sendLoop] using IOFrame.refl s, ⟨[], rfl, fun _ => rfl⟩, by simp, by simp, ?_, ?_,
+        fun _ => rfl, by simp, fun _ _ => by simp, ?_⟩
       · intro _; simp [accepted, forbidden]
+      · intro e he; simp [sendLoop] at he
       · intro e he; simp [sendLoop] at he
     | cons b t =>
       unfold sendLoop
@@ -268,12 +304,18 @@ theorem sendLoop_spec : ∀ (f : Nat) (buf : Bytes) (rb : Bool) (timeout : Optio
           simp only
           obtain ⟨he, hi, hfb, hws⟩ := herr1 e rfl
           subst hws
-          refine ⟨[], [], hf1, ⟨b :: t, rfl, fun h => by simp at h⟩, by simp, by simp, ?_, ?_⟩
+          refine ⟨[], [], hf1, ⟨b :: t, rfl, fun h => by simp at h⟩, by simp, by simp, ?_, ?_,
+            fun _ => rfl, by simp, fun h => by simp at h, ?_⟩
           · intro _; simp [accepted, forbidden]
           · intro e' he'
             simp only [Except.error.injEq] at he'
             subst he'
             exact Or.inl ⟨he, hi, forbidden_take _ _ _ hfb⟩
+          · intro e' he' hk
+            simp only [Except.error.injEq] at he'
+            subst he'
+            rw [he] at hk
+            simp at hk
         | ok u =>
           simp only
           obtain ⟨hfine, _, hacc1⟩ := hok1 rfl
@@ -285,8 +327,13 @@ theorem sendLoop_spec : ∀ (f : Nat) (buf : Bytes) (rb : Bool) (timeout : Optio
             rcases hfine with h | h
             · rw [hi] at h; simp at h
             · rw [hacc1]; exact h
+          have hpos : 0 < readBack ((b :: t).take s.slice) := by
+            unfold readBack
+            simp only [List.length_take, List.length_cons]
+            omega
           -- common continuation after the (optional) read-back
           have cont : ∀ (s2 : St) (recs1 : List ReadRec), IOFrame s s2 recs1 ws1 →
+              (rb = false → recs1 = []) → (rb = true → total recs1 = readBack (accepted ws1)) →
               ∃ recs ws, IOFrame s (sendLoop f ((b :: t).drop s2.slice) rb timeout ign t0 s2).2 recs ws
                 ∧ (∃ rest, b :: t = accepted ws ++ rest ∧
                     ((sendLoop f ((b :: t).drop s2.slice) rb timeout ign t0 s2).1 = .ok () → rest = []))
@@ -295,14 +342,27 @@ theorem sendLoop_spec : ∀ (f : Nat) (buf : Bytes) (rb : Bool) (timeout : Optio
                 ∧ (ign = false → forbidden s.blacklist (accepted ws) = false)
                 ∧ (∀ e, (sendLoop f ((b :: t).drop s2.slice) rb timeout ign t0 s2).1 = .error e →
                     (e = .illegal ∧ ign = false ∧ forbidden s.blacklist (b :: t) = true)
-                    ∨ e = .timeout ∨ e = .hang ∨ ∃ x m, e = .death x m) := by
-            intro s2 recs1 hfr
+                    ∨ e = .timeout ∨ e = .hang ∨ ∃ x m, e = .death x m)
+                ∧ (rb = false → recs = [])
+                ∧ total recs ≤ readBack (accepted ws)
+                ∧ ((sendLoop f ((b :: t).drop s2.slice) rb timeout ign t0 s2).1 = .ok () → rb = true →
+                    total recs = readBack (accepted ws))
+                ∧ (∀ e, (sendLoop f ((b :: t).drop s2.slice) rb timeout ign t0 s2).1 = .error e →
+                    e = .timeout ∨ e = .hang → rb = true ∧ total recs < readBack (accepted ws)) := by
+            intro s2 recs1 hfr hr1 hr2
             have hsl2 : s2.slice = s.slice := hfr.slice
             rw [hsl2]
-            obtain ⟨recs, ws, hf2, ⟨rest, hrest, hrok⟩, hwl, hws, hnf, herr⟩ :=
+            obtain ⟨recs, ws, hf2, ⟨rest, hrest, hrok⟩, hwl, hws, hnf, herr, hnr, hle, hokr, hto⟩ :=
               ih ((b :: t).drop s.slice) rb timeout ign t0 s2 hdrop (by rw [hsl2]; exact hsl) (hfr.wf hwf)
                 (by rw [hfr.chunk]; exact hc) (by rw [hfr.slowDelay, hfr.slowChunk]; exact hsc)
-            refine ⟨recs1 ++ recs, ws1 ++ ws, hfr.trans hf2, ⟨rest, ?_, hrok⟩, ?_, ?_, ?_, ?_⟩
+            have hrbapp : readBack (accepted (ws1 ++ ws)) = readBack (accepted ws1) + readBack (accepted ws) := by
+              rw [accepted_append, readBack_append]
+            have htot : total (recs1 ++ recs) = total recs1 + total recs := total_append _ _
+            have h1le : total recs1 ≤ readBack (accepted ws1) := by
+              cases hb : rb with
+              | false => rw [hr1 hb]; exact Nat.zero_le _
+              | true => exact Nat.le_of_eq (hr2 hb)
+            refine ⟨recs1 ++ recs, ws1 ++ ws, hfr.trans hf2, ⟨rest, ?_, hrok⟩, ?_, ?_, ?_, ?_, ?_, ?_, ?_, ?_⟩
             · have : accepted (ws1 ++ ws) = accepted ws1 ++ accepted ws := by simp [accepted]
               rw [this, hacc1, List.append_assoc, ← hrest, List.take_append_drop]
             · intro w hw
@@ -326,41 +386,74 @@ theorem sendLoop_spec : ∀ (f : Nat) (buf : Bytes) (rb : Bool) (timeout : Optio
                 rw [hfr.blacklist] at h3
                 exact ⟨h1, h2, forbidden_drop _ _ _ h3⟩
               · exact Or.inr h
+            · intro h; rw [hr1 h, hnr h]; rfl
+            · rw [htot, hrbapp]; omega
+            · intro hok hrb
+              rw [htot, hrbapp, hr2 hrb, hokr hok hrb]
+            · intro e he hk
+              obtain ⟨hrb, hlt⟩ := hto e he hk
+              refine ⟨hrb, ?_⟩
+              rw [htot, hrbapp, hr2 hrb]; omega
           cases rb with
           | false =>
-            simp only [Bool.false_eq_true, if_false]
-            exact cont s1 [] hf1
+            rw [if_neg Bool.false_ne_true]
+            exact cont s1 [] hf1 (fun _ => rfl) (fun h => by cases h)
           | true =>
-            simp only [if_true]
+            rw [if_pos rfl]
             cases hrem : remaining timeout t0 s1.now with
             | none =>
               simp only
-              refine ⟨[], ws1, hf1, ⟨(b :: t).drop s.slice, ?_, fun h => by simp at h⟩, hw1, hs1, hnf1, ?_⟩
+              refine ⟨[], ws1, hf1, ⟨(b :: t).drop s.slice, ?_, fun h => by simp at h⟩, hw1, hs1, hnf1, ?_,
+                fun _ => rfl, Nat.zero_le _, fun h => by simp at h, ?_⟩
               · rw [hacc1, List.take_append_drop]
               · intro e he
                 simp only [Except.error.injEq] at he
                 exact Or.inr (Or.inl he.symm)
+              · -- the time was used up by (slow) writing: the echo of this slice is still owed
+                intro e _ _
+                exact ⟨trivial, by rw [hacc1]; exact hpos⟩
             | some rem =>
               simp only
-              obtain ⟨recs1, hfr, _, _, _, herrR⟩ :=
+              obtain ⟨recs1, hfr, _, htotR, hokR, herrR⟩ :=
                 read_some_spec (((b :: t).take s.slice).length + countNl ((b :: t).take s.slice)) rem s1
                   (hf1.wf hwf) (by rw [hf1.chunk]; exact hc)
               cases hrd : Chan.read (some (((b :: t).take s.slice).length + countNl ((b :: t).take s.slice))) rem s1 with
               | mk rr s2 =>
-                rw [hrd] at hfr herrR
+                rw [hrd] at hfr hokR herrR
                 have hfr2 : IOFrame s s2 ([] ++ recs1) (ws1 ++ []) := hf1.trans (IOFrame.ofRead hfr)
                 simp only [List.nil_append, List.append_nil] at hfr2
                 cases rr with
                 | error e =>
                   simp only
-                  refine ⟨recs1, ws1, hfr2, ⟨(b :: t).drop s.slice, ?_, fun h => by simp at h⟩, hw1, hs1, hnf1, ?_⟩
+                  refine ⟨recs1, ws1, hfr2, ⟨(b :: t).drop s.slice, ?_, fun h => by simp at h⟩, hw1, hs1, hnf1, ?_,
+                    (fun h => by cases h), by rw [hacc1]; exact htotR, fun h => by simp at h, ?_⟩
                   · rw [hacc1, List.take_append_drop]
                   · intro e' he
                     simp only [Except.error.injEq] at he
                     subst he
                     exact Or.inr (herrR e rfl).1
+                  · -- the read-back of this slice timed out: fewer bytes than its echo arrived
+                    intro e' he hk
+                    simp only [Except.error.injEq] at he
+                    subst he
+                    refine ⟨trivial, ?_⟩
+                    rw [hacc1]
+                    rcases (herrR e rfl).2 hk with h | h
+                    · exact h
+                    · exfalso
+                      have := hpos
+                      unfold readBack at this
+                      omega
                 | ok bb =>
                   simp only
-                  exact cont s2 recs1 hfr2
+                  have htot1 : total recs1 = readBack (accepted ws1) := by
+                    obtain ⟨h1, h2⟩ := hokR bb rfl
+                    rw [hacc1]
+                    unfold total
+                    rw [← h1]
+                    exact h2
+                  have hcont := cont s2 recs1 hfr2 (fun h => by cases h) (fun _ => htot1)
+                  simp only at hcont
+                  exact hcont
 
 end C03
